@@ -94,6 +94,12 @@ func (app *App) checkRecovery() {
 		return
 	}
 
+	if sstatus == nil {
+		// stuck on semi-sync while still being the recorded master: not a replica, nothing to compare
+		app.logger.Info().Msg("recovery: waiting for manager to turn us to a new master")
+		return
+	}
+
 	app.logger.Info().Msgf("recovery: master %s has GTIDs %s", master, mgtids)
 	app.logger.Info().Msgf("recovery: local node %s has GTIDs %s", localNode.Host(), sstatus.GetExecutedGtidSet())
 
